@@ -1,4 +1,5 @@
 """C11 — a failing user function leaves the stepper consistent and resumable."""
+import z3
 from pyvc.contracts import FunctionUnit
 from .steploop import units_single_step, StepLoop, SingleStepGenerated
 
@@ -25,6 +26,7 @@ def units():
         # ... except that a step is reported as failed only for a FailStep: a user function's exception is never swallowed
         return mine(n) and ("/step/" not in n or "failed-step-was-a-FailStep" in n) and "post[return]/" not in n
     us += exec_frame_units()
+    us += propagation_units()
     out = []
     for u in us:
         if isinstance(u, FunctionUnit):
@@ -33,6 +35,54 @@ def units():
         else:
             out.append(u)
     return out
+
+
+def propagation_units():
+    """a failure while a statement's guard or a statement is evaluated is the caller's to see: evaluate_condition / exec_Assign /
+    exec_AssignFunctionCall / exec_YieldState never return normally after the evaluator (which runs the user's functions) has
+    raised, and the exception that leaves them is that exception.  The evaluator's exception is of an arbitrary class, so a
+    handler `except TypeError` may or may not catch it (both are explored).  Reuses C08's models of the interpreter's methods
+    (what they read and write is C08's subject and not checked here)."""
+    from . import c08
+
+    def make(base, *a):
+        class Propagates(base):
+            prop = "C11"
+            variant_name = "failure-propagates"
+            exc_hierarchy = {"EvaluatorFailure": ["Exception"]}
+            arbitrary_exception_classes = ("EvaluatorFailure",)
+            any_raise_ok = False
+
+            def ghosts(self, ctx):
+                super().ghosts(ctx)
+                ctx.ghost["evaluator_raised"] = z3.BoolVal(False)
+
+            def m_eval(self, ctx, it, args, kw):
+                if ctx.choose(2, "evaluator-raises") == 0:
+                    ctx.ghost["evaluator_raised"] = z3.BoolVal(True)
+                    ctx.raise_("EvaluatorFailure")
+                old = ctx.choose
+                # the base model decides for itself whether the evaluation raises: here it does not (decided above)
+                ctx.choose = lambda n, what, _o=old: (1 if what == "eval-raises" else _o(n, what))
+                try:
+                    return super().m_eval(ctx, it, args, kw)
+                finally:
+                    ctx.choose = old
+
+            calls = property(lambda self: dict(super(Propagates, self).calls, **{"self.eval_mapper": self.m_eval}))
+
+            def ensures(self, st):
+                return [("no-normal-return-after-the-evaluator-raised(a-user-function's-failure-is-never-swallowed)",
+                         z3.Not(st.g("evaluator_raised")))]
+
+            @property
+            def raises(self):
+                same = lambda st: [("only-after-the-evaluator-raised", st.g("evaluator_raised"))]   # noqa: E731
+                return {"EvaluatorFailure": same}
+        return Propagates(*a)
+    # exec_Assign: nothing but what an expression evaluation raises leaves it (no KeyError from tidying up loop counters that
+    # were never bound): the exception the caller sees is the user function's
+    return [FunctionUnit(make(c08.ExecCondition)), FunctionUnit(c08.ExecAssignNoSpuriousException())]
 
 
 def exec_frame_units():
